@@ -1089,3 +1089,408 @@ def state_roundtrip(ctx, res):
     res.instance("_trait_setstate:scalars", facts.loc(ss),
                  fields=sorted(scalars), flag_bits=hex(all_bits))
     res.floor(n_items + 2)
+
+
+# ---------------------------------------------------------------------------
+# C18.slot-arity: a function-pointer slot that is invoked with two different
+# signatures holds a function of the minority signature exactly when the slot
+# that selects the minority caller does
+
+def _slot_call_sites(facts, field):
+    """[(function, number of arguments)] of the calls made through
+    `X->field` - directly, through a cast, or through a local that was
+    loaded from the field"""
+    out = []
+    for fname in facts.defined_functions():
+        fn = facts.func(fname)
+        loaded = set()
+        for x in fn.walk():
+            name = rhs = None
+            if x.kind == "VarDecl" and x.ch:
+                name, rhs = x.name, x.ch[-1]
+            elif x.kind == "BinaryOperator" and x.op == "=" and var(x.ch[0]):
+                name, rhs = var(x.ch[0]), x.ch[1]
+            if name and rhs is not None:
+                r = strip(rhs)
+                if r is not None and r.kind == "MemberExpr" and r.name == field:
+                    loaded.add(name)
+        for c in fn.walk():
+            if c.kind != "CallExpr":
+                continue
+            f0 = c.ch[0]
+            hit = False
+            for y in f0.walk():
+                if y.kind == "MemberExpr" and y.name == field:
+                    hit = True
+                if y.kind == "DeclRefExpr" and y.ref in loaded \
+                        and y.refkind in ("VarDecl", "ParmVarDecl"):
+                    hit = True
+                if y.kind == "CallExpr" and y is not c:
+                    hit = False
+                    break
+            if hit:
+                out.append((fname, len(c.ch) - 1, c))
+    return out
+
+
+@rule("C18.slot-arity", ["C18", "C14"],
+      "the post_setattr slot is invoked with two signatures (the 4-argument "
+      "hook; and, cast back to a 5-argument setter, by the validated-property "
+      "setter): every writer of the slot stores a 5-argument table member "
+      "exactly on the paths on which the setattr slot is that setter - "
+      "otherwise a function is called with the wrong number of arguments")
+def slot_arity(ctx, res):
+    from ..cfg import enumerate_paths
+    facts = get_cfacts(ctx)
+    tables = fp_tables(facts)
+    field = "post_setattr"
+    sites = _slot_call_sites(facts, field)
+    by_arity = {}
+    for f, n, c in sites:
+        by_arity.setdefault(n, set()).add(f)
+    res.instance(f"calls through ->{field}", CREL,
+                 arities={str(k): sorted(v) for k, v in by_arity.items()})
+    if len(by_arity) < 2:
+        # one signature only: nothing to pair (the self-test keeps a
+        # positive example)
+        res.oblige(True, f"{field}:single-signature", "", "")
+        res.floor(1)
+        return
+    if len(by_arity) != 2:
+        raise AnalysisError(f"->{field} is invoked with {sorted(by_arity)} "
+                            f"argument counts")
+    (a_min, users_min), (a_maj, users_maj) = sorted(
+        by_arity.items(), key=lambda kv: len(kv[1]))
+    if len(users_min) != 1:
+        raise AnalysisError(f"minority signature of ->{field} used by "
+                            f"{sorted(users_min)}")
+    umin = next(iter(users_min))
+    # the slot that selects the minority caller: the table that lists it
+    dfield = None
+    gs = facts.func("_trait_getstate")
+    for c in gs.walk():
+        if c.kind == "CallExpr" and callee(c) == "func_index":
+            a0, a1 = strip(c.ch[1]), strip(c.ch[2])
+            if a0.kind == "MemberExpr" and a1.kind == "DeclRefExpr" \
+                    and umin in tables.get(a1.ref, []):
+                dfield, dtable = a0.name, a1.ref
+    if dfield is None:
+        raise AnalysisError(f"{umin} is not a member of a handler table")
+    res.instance("pairing", CREL, minority_caller=umin, selected_by=dfield,
+                 minority_arity=a_min, majority_arity=a_maj)
+
+    def arity_of(fn_name):
+        return len(facts.params(fn_name)) if fn_name else None
+
+    n_writers = 0
+    for fname in facts.defined_functions():
+        fn = facts.func(fname)
+        stores = [x for x in fn.walk() if x.kind == "BinaryOperator"
+                  and x.op == "=" and strip(x.ch[0]).kind == "MemberExpr"
+                  and strip(x.ch[0]).name == field
+                  and "trait_object" in (strip(strip(x.ch[0]).ch[0]).type or "")]
+        if not stores:
+            continue
+        n_writers += 1
+        g = get_ccfg(ctx, facts, fname)
+        fl = IntervalFlow(facts, g, tables)
+        bad = None
+        n_paths = 0
+        for path in enumerate_paths(g, max_paths=20000):
+            st = frozenset()
+            dfact = None         # True: D is umin, False: D is not umin
+            dstore = None
+            feasible = True
+            for nid, lab in path:
+                nd = g.nodes[nid]
+                if nd.ast is None:
+                    continue
+                if nd.kind == "cond" and lab in ("T", "F"):
+                    e = strip(nd.ast)
+                    st2 = fl.refine(e, lab == "T", st)
+                    if st2 is None:
+                        feasible = False
+                        break
+                    st = st2
+                    if e.kind == "BinaryOperator" and e.op in ("==", "!="):
+                        l, r = strip(e.ch[0]), strip(e.ch[1])
+                        for a, b in ((l, r), (r, l)):
+                            if b.kind == "DeclRefExpr" and b.ref == umin and (
+                                    (a.kind == "MemberExpr" and a.name == dfield)
+                                    or (a.kind == "ArraySubscriptExpr"
+                                        and strip(a.ch[0]).kind == "DeclRefExpr"
+                                        and strip(a.ch[0]).ref == dtable)):
+                                dfact = (lab == "T") == (e.op == "==")
+                    continue
+                if nd.kind != "stmt":
+                    continue
+                st = fl.kill_assigned(nd, st)
+                for x in nd.ast.walk():
+                    if not (x.kind == "BinaryOperator" and x.op == "="):
+                        continue
+                    lhs, rhs = strip(x.ch[0]), strip(x.ch[1])
+                    if lhs.kind != "MemberExpr":
+                        continue
+                    if lhs.name == dfield:
+                        if rhs.kind == "DeclRefExpr" \
+                                and rhs.refkind == "FunctionDecl":
+                            dstore = (rhs.ref == umin)
+                        elif rhs.kind == "MemberExpr" and rhs.name == dfield:
+                            dstore = "copy"
+                        else:
+                            dstore = dfact      # table[idx]: what the path knows
+                    if lhs.name != field or x not in stores:
+                        continue
+                    # what may be stored, by arity
+                    ar = set()
+                    copy = False
+                    if rhs.kind == "DeclRefExpr" and rhs.refkind == "FunctionDecl":
+                        ar.add(arity_of(rhs.ref))
+                    elif is_null(rhs):
+                        ar.add("null")
+                    elif rhs.kind == "MemberExpr" and rhs.name == field:
+                        copy = True
+                    elif rhs.kind == "ArraySubscriptExpr" \
+                            and strip(rhs.ch[0]).kind == "DeclRefExpr" \
+                            and strip(rhs.ch[0]).ref in tables:
+                        ents = tables[strip(rhs.ch[0]).ref]
+                        lo, hi = fl.eval_int(rhs.ch[1], st)
+                        lo = 0 if lo == -INF else int(lo)
+                        hi = len(ents) - 1 if hi == INF else int(hi)
+                        for m in ents[max(lo, 0):hi + 1]:
+                            ar.add(arity_of(m) if m else "null")
+                    else:
+                        raise AnalysisError(
+                            f"{fname}: unclassified store into ->{field}: "
+                            f"{cnorm(rhs)}")
+                    n_paths += 1
+                    d = dstore if dstore is not None else dfact
+                    if copy:
+                        ok = dstore == "copy"
+                        why = (f"->{field} is copied from another trait but "
+                               f"->{dfield} is not copied with it")
+                    elif d is True:
+                        ok = ar <= {a_min}
+                        why = (f"->{dfield} is {umin} on this path but "
+                               f"->{field} may receive a member with "
+                               f"{sorted(map(str, ar - {a_min}))} parameters "
+                               f"(or NULL), which {umin} calls with {a_min} "
+                               f"arguments")
+                    elif d is False:
+                        ok = a_min not in ar
+                        why = (f"->{dfield} is not {umin} on this path but "
+                               f"->{field} may receive a {a_min}-parameter "
+                               f"member, which the other callers invoke with "
+                               f"{a_maj} arguments")
+                    else:
+                        ok = False
+                        why = (f"nothing on this path relates ->{dfield} to "
+                               f"{umin}, while ->{field} may receive members "
+                               f"with {sorted(map(str, ar))} parameters: a "
+                               f"{a_min}-parameter function can end up being "
+                               f"called with {a_maj} arguments or the other "
+                               f"way round (type confusion / crash)")
+                    if not ok and bad is None:
+                        bad = (x, why)
+            if not feasible:
+                continue
+        res.instance(fname, facts.loc(fn), stores=len(stores), sites=n_paths)
+        if bad is None:
+            res.oblige(True, fname, "", "")
+        else:
+            res.violation(f"{fname}:{field}:pairing", facts.loc(bad[0]),
+                          f"{fname}: {bad[1]}")
+    if n_writers < 3:
+        raise AnalysisError(f"only {n_writers} writers of ->{field} found")
+    res.floor(4)
+
+
+# ---------------------------------------------------------------------------
+# C18.default-shape: what default_value_for unpacks without looking is
+# guaranteed by every writer of (default_value_type, default_value)
+
+@rule("C18.default-shape", ["C18", "C14", "C10"],
+      "default_value_for dispatches on trait->default_value_type without a "
+      "default arm and unpacks trait->default_value with PyTuple_GET_ITEM in "
+      "the callable-and-arguments arm: every function that stores an "
+      "externally supplied kind bounds it to the dispatched kinds and, for "
+      "the unpacking kind, has checked that the stored value is a tuple of "
+      "sufficient size (sibling writers agree with the validating setter)")
+def default_shape(ctx, res):
+    from ..cfg import enumerate_paths
+    facts = get_cfacts(ctx)
+    tables = fp_tables(facts)
+    TF, VF = "default_value_type", "default_value"
+    # ---- reader ---------------------------------------------------------
+    g = get_ccfg(ctx, facts, "default_value_for")
+    sw = [n for n in g.nodes if n.kind == "switch"
+          and cnorm(n.ast).endswith("->" + TF)]
+    if len(sw) != 1:
+        raise AnalysisError("default_value_for: dispatch on the kind not found")
+    kinds = sorted(lab[1] for lab, t in g.succ[sw[0].id]
+                   if isinstance(lab, tuple))
+    has_default = any(n.kind == "join" and False for n in g.nodes)
+    need = {}       # kind -> minimal tuple size
+    fn = facts.func("default_value_for")
+    # case arms: walk the switch body statement list
+    cur = None
+    def visit(n):
+        nonlocal cur
+        if n.kind == "CaseStmt":
+            v = int_value(n.ch[0])
+            if v is None:
+                try:
+                    v = int(n.ch[0].value)
+                except (TypeError, ValueError):
+                    v = None
+            cur = v
+        if n.kind == "CallExpr" and callee(n) == "PyTuple_GET_ITEM" \
+                and cur is not None:
+            j = int_value(n.ch[2])
+            if j is not None:
+                need[cur] = max(need.get(cur, 0), j + 1)
+        for c in n.ch:
+            visit(c)
+    # PyTuple_GET_ITEM is a macro on some builds: also look for ob_item[j]
+    def visit2(n):
+        nonlocal cur
+        if n.kind == "CaseStmt":
+            v = int_value(n.ch[0])
+            cur = v if v is not None else cur
+        if n.kind == "ArraySubscriptExpr" and "ob_item" in cnorm(n.ch[0]) \
+                and cur is not None:
+            j = int_value(n.ch[1])
+            if j is not None:
+                need[cur] = max(need.get(cur, 0), j + 1)
+        for c in n.ch:
+            visit2(c)
+    visit(fn)
+    cur = None
+    visit2(fn)
+    res.instance("default_value_for", facts.loc(fn), kinds=kinds,
+                 unpacked={str(k): v for k, v in need.items()})
+    if len(kinds) < 8 or not need:
+        raise AnalysisError(f"default_value_for: kinds {kinds}, unpacking "
+                            f"arms {need}")
+    lo_k, hi_k = min(kinds), max(kinds)
+    # ---- writers --------------------------------------------------------
+    n_writers = 0
+    for fname in facts.defined_functions():
+        f = facts.func(fname)
+        stores = [x for x in f.walk() if x.kind == "BinaryOperator"
+                  and x.op == "=" and strip(x.ch[0]).kind == "MemberExpr"
+                  and strip(x.ch[0]).name == TF]
+        if not stores:
+            continue
+        gw = get_ccfg(ctx, facts, fname)
+        fl = IntervalFlow(facts, gw, tables)
+        for s_ in stores:
+            rhs = strip(s_.ch[1])
+            key = f"{fname}:{TF}"
+            if rhs.kind == "MemberExpr" and rhs.name == TF:
+                res.instance(key, facts.loc(s_), source="copy of another trait")
+                res.oblige(True, key, "", "")
+                n_writers += 1
+                continue
+            v = var(rhs)
+            if v is None:
+                raise AnalysisError(f"{fname}: kind stored from `{cnorm(rhs)}`")
+            n_writers += 1
+            res.instance(key, facts.loc(s_), source=v)
+            bad = None
+            for path in enumerate_paths(gw, max_paths=40000):
+                st = frozenset()
+                checked_tuple = set()      # value texts known to be tuples
+                sized = {}                 # value text -> known size
+                not_kinds = set()
+                reached = False
+                feasible = True
+                for nid, lab in path:
+                    nd = gw.nodes[nid]
+                    if nd.ast is None:
+                        continue
+                    if nd.kind == "switch":
+                        if cnorm(nd.ast) == v:
+                            if isinstance(lab, tuple):
+                                st = fl.put(st, v, lab[1], lab[1])
+                            else:
+                                not_kinds |= {l[1] for l, t in gw.succ[nid]
+                                              if isinstance(l, tuple)}
+                        continue
+                    if nd.kind == "cond" and lab in ("T", "F"):
+                        e = strip(nd.ast)
+                        st2 = fl.refine(e, lab == "T", st)
+                        if st2 is None:
+                            feasible = False
+                            break
+                        st = st2
+                        t = cnorm(e)
+                        truth = lab == "T"
+                        if e.kind == "CallExpr" and callee(e) in (
+                                "PyTuple_Check", "PyTuple_CheckExact") and truth:
+                            checked_tuple.add(cnorm(e.ch[1]))
+                        # the macro-expanded form of PyTuple_Check:
+                        # PyType_HasFeature(Py_TYPE(x), Py_TPFLAGS_TUPLE_SUBCLASS)
+                        if e.kind == "CallExpr" and truth \
+                                and callee(e) == "PyType_HasFeature" \
+                                and len(e.ch) == 3 \
+                                and cnorm(e.ch[2]).replace(" ", "") in (
+                                    "(1<<26)", "(1UL<<26)", "67108864"):
+                            a0 = strip(e.ch[1])
+                            if a0.kind == "CallExpr" and callee(a0) == "Py_TYPE":
+                                checked_tuple.add(cnorm(a0.ch[1]))
+                        if e.kind == "BinaryOperator" and e.op in ("==", "!="):
+                            l, r = strip(e.ch[0]), strip(e.ch[1])
+                            for a, b in ((l, r), (r, l)):
+                                k = int_value(b)
+                                if k is not None and var(a) == v \
+                                        and (truth != (e.op == "==")):
+                                    not_kinds.add(k)     # v != k on this path
+                                if k is not None and a.kind == "CallExpr" \
+                                        and callee(a) in ("PyTuple_GET_SIZE",
+                                                          "PyTuple_Size") \
+                                        and (truth == (e.op == "==")):
+                                    sized[cnorm(a.ch[1])] = k
+                        continue
+                    if nd.kind == "stmt" and any(x is s_ for x in nd.ast.walk()):
+                        reached = True
+                        break
+                    if nd.kind == "stmt":
+                        st = fl.kill_assigned(nd, st)
+                if not feasible or not reached:
+                    continue
+                lo, hi = fl.get(st, v)
+                if lo < lo_k or hi > hi_k:
+                    if bad is None:
+                        bad = (f"the kind `{v}` reaches trait->{TF} with "
+                               f"range [{lo}, {hi}] on some path, the "
+                               f"dispatch in default_value_for knows "
+                               f"{lo_k}..{hi_k} (an unknown kind returns NULL "
+                               f"without an exception)")
+                    continue
+                # the value stored on the same function into ->default_value
+                vstores = [strip(x.ch[1]) for x in f.walk()
+                           if x.kind == "BinaryOperator" and x.op == "="
+                           and strip(x.ch[0]).kind == "MemberExpr"
+                           and strip(x.ch[0]).name == VF]
+                vstores += [strip(c.ch[2]) for c in f.walk()
+                            if c.kind == "CallExpr" and len(c.ch) == 3
+                            and "&" in cnorm(c.ch[1])
+                            and cnorm(c.ch[1]).endswith("->" + VF)]
+                vtexts = {cnorm(x) for x in vstores if x is not None}
+                for k, size in need.items():
+                    if not (lo <= k <= hi) or k in not_kinds:
+                        continue
+                    ok = any(t in checked_tuple and sized.get(t, -1) >= size
+                             for t in vtexts)
+                    if not ok and bad is None:
+                        bad = (f"kind {k} can be stored with a default value "
+                               f"({sorted(vtexts)}) that was not checked to "
+                               f"be a tuple of {size} items: "
+                               f"default_value_for reads items 0..{size - 1} "
+                               f"of it unchecked (out-of-bounds read)")
+            res.oblige(bad is None, f"{fname}:{TF}:shape", facts.loc(s_),
+                       f"{fname}: {bad}")
+    if n_writers < 3:
+        raise AnalysisError(f"only {n_writers} writers of ->{TF} found")
+    res.floor(3)
